@@ -35,13 +35,17 @@ def seeded():
         r = res.get(name, {})
         caught = [c for c, v in (r.get("checks") or {}).items() if (v or {}).get("exit") == 1]
         note = (m.get("confirmed_by_coordinator", {}).get("check_result") or "")
+        if m.get("obsolete"):
+            rows.append("| %s | %s | | no longer a violation | %s |" % (name, (m.get("summary") or "")[:200].replace("\n", " ").replace("|", "/"), m["obsolete"][:260].replace("|", "/")))
+            continue
         first_missed = "first missed" in note
         rows.append("| %s | %s | %s | %s | %s |" % (name, (m.get("summary") or "")[:200].replace("\n", " ").replace("|", "/"),
                                                   (m.get("needs") or "")[:160].replace("\n", " ").replace("|", "/") if isinstance(m.get("needs"), str) else "",
                                                   ", ".join("./check %s" % c for c in caught) or "NOT CAUGHT",
                                                   ("missed at first; " + note.split(";", 1)[1].strip()[:160] if first_missed and ";" in note else ("missed at first, check strengthened" if first_missed else ""))))
     n = len(rows)
-    nc = sum(1 for r in rows if "NOT CAUGHT" not in r)
+    n -= sum(1 for r in rows if "no longer a violation" in r)
+    nc = sum(1 for r in rows if "NOT CAUGHT" not in r and "no longer a violation" not in r)
     return ("| change | what it does | needs | caught by (last full re-run) | note |\n|---|---|---|---|---|\n" + "\n".join(rows) +
             "\n\n%d seeded changes kept, %d caught by the checks on the last full re-run (tools/seedall.py, seeded/RESULTS.json).\n" % (n, nc))
 
